@@ -120,6 +120,18 @@ theorem C12_create (guard : SplitGuard) (s : State) (r : Req) (nf : Bytes) (hnf 
   · simp [step, create, hnf, hp, hone, hbad]
   · rw [h1, ← h2]; exact findUe_putUe_same _ _
 
+/-- A one-time event that is accepted: 201, sequence number echoed, the reference part of the Location is EMPTY (an event opens
+    no session), no sequence number is used up, no money moves, and the record opened for it holds the reported usage. -/
+theorem C12_one_time_event (guard : SplitGuard) (s : State) (r : Req) (nf : Bytes) (hnf : r.nf = some nf)
+    (hp : supiAccepted r.supi = true) (hone : r.one = true) (hbad : r.bad = false) :
+    (step guard s (.create r)).2.status = 201 ∧
+    (step guard s (.create r)).2.loc = some [] ∧
+    (step guard s (.create r)).2.seq = some r.seq ∧
+    (step guard s (.create r)).1.sessionSeq = s.sessionSeq ∧
+    (step guard s (.create r)).1.accts = s.accts ∧
+    (step guard s (.create r)).1.localSeq = s.localSeq + 1 := by
+  simp [step, create, hnf, hp, hone, hbad]
+
 /-- An accepted update: 200 with the sequence number echoed. -/
 theorem C12_update (guard : SplitGuard) (s : State) (sid : Bytes) (r : Req) (ue : Ue) (idx : Nat)
     (h : findUe s.ues r.supi = some ue) (hs : lookupSid ue.cdr sid = some idx) :
